@@ -467,6 +467,38 @@ func runJournalStopTimes(c *Ctx) {
 		}
 	}
 	c.Check(okCall, "PART", fname, "partition of the journal's list against this update", p.pos(tu.Pos()), "createPartition(trip.StopTimes, tripUpdate.StopTimeUpdates)", "the partition is not computed from the trip's current list and this update's stop time updates")
+	// every applied update is partitioned, whatever it carries: an update with no stop time updates still says that all
+	// stops of the trip are behind it (everything is marked past, the list is trimmed). The only return that the
+	// partition does not precede is the one of an update that is not applied (assigned trip, update without vehicle).
+	{
+		var cpBlk *ssa.BasicBlock
+		for _, blk := range tu.Blocks {
+			for _, in := range blk.Instrs {
+				if call, ok := in.(*ssa.Call); ok && staticCallee(call) == cp {
+					cpBlk = blk
+				}
+			}
+		}
+		bad := ""
+		if cpBlk != nil {
+			for _, blk := range tu.Blocks {
+				ret, isRet := blk.Instrs[len(blk.Instrs)-1].(*ssa.Return)
+				if !isRet || blk == cpBlk || cpBlk.Dominates(blk) {
+					continue
+				}
+				notApplied := false
+				for _, ce := range dominatingConds(blk) {
+					if bo, ok := ce.Cond.(*ssa.BinOp); ok && isNilConst(bo.Y) && strings.HasSuffix(b.bind(bo.X), ".Vehicle") && ((bo.Op == token.EQL && ce.Val) || (bo.Op == token.NEQ && !ce.Val)) {
+						notApplied = true
+					}
+				}
+				if !notApplied {
+					bad = p.ipos(ret)
+				}
+			}
+			c.Check(bad == "", "PART", fname, "every applied update is partitioned", p.pos(tu.Pos()), "createPartition precedes every return except the one of an update that is not applied", "the function returns at "+bad+" without partitioning the list against the update: for such an update (e.g. one without stop time updates) the stops that are behind the trip are not marked past and the list is not trimmed")
+		}
+	}
 	// the partition's prefix and pairs point into the list's backing array: until both loops are done the list must
 	// stay in that array (a reslice is fine, a reallocated copy is not: marks and refreshes would land in the old one)
 	{
